@@ -138,9 +138,15 @@ var counters = ev.Register(&ev.P[dayCase]{
 	Check: func(c dayCase) error {
 		j := c.J
 		y, mo, d := ref.FromJDN(j)
-		l := calendar.NewSolarFromYmd(y, mo, d).GetLunar()
+		// the counters and festivals are day-level facts: the clock time of the object must not matter,
+		// so it rotates with the day number (midnight every fifth day)
+		h, mi, sec := (j*7)%24, (j*11)%60, (j*13)%60
+		if j%5 == 0 {
+			h, mi, sec = 0, 0, 0
+		}
+		l := calendar.NewSolar(y, mo, d, h, mi, sec).GetLunar()
 		w := model(j)
-		day := fmt.Sprintf("%04d-%02d-%02d", y, mo, d)
+		day := fmt.Sprintf("%04d-%02d-%02d %02d:%02d:%02d", y, mo, d, h, mi, sec)
 		for _, e := range w.edge {
 			if e == "MODEL-middle-not-10-or-20" {
 				return fmt.Errorf("%s: the middle dog-day period would be neither 10 nor 20 days (summer solstice, Liqiu and geng days inconsistent)", day)
